@@ -206,6 +206,39 @@ def tag_checks(eff):
 KIND_OK = {("int64_t", "int64_t"), ("int64_t", "double"), ("double", "double"), ("string", "string")}
 
 
+def search_loops(eff):
+    """loops whose trip count the analysis does not have: loops without a closed form, and counted loops left by `break` (a search):
+    the op sequences folded out of code containing them are not the sequences it performs"""
+    from sa.symexec import flat as _flat
+    out = []
+
+    def has_break(body):
+        for x_ in body:
+            if x_["e"] == "break":
+                return True
+            if x_["e"] == "if" and (has_break(x_["then"]) or has_break(x_["else"])):
+                return True
+            if x_["e"] == "inlined" and has_break(x_["body"]):
+                return True
+        return False
+    for x_ in _flat(eff):
+        if x_["e"] == "while" and x_.get("kind") != "forrange":
+            out.append(x_)
+        elif x_["e"] == "loop" and has_break(x_.get("body") or []):
+            out.append(x_)
+    return out
+
+
+def undecided_if_search_loops(tname, W, R, problems):
+    if problems:
+        from sa.pipeline import AnalysisBroken
+        for side, view_ in (("reader", R), ("writer", W)):
+            wl = search_loops(view_["eff"])
+            if wl:
+                raise AnalysisBroken("%s: the %s contains a loop whose trip count is not known (a search left by break, or no closed form) at line %s; "
+                                     "a mismatch of the op sequences proves nothing: not decided" % (tname, side, wl[0].get("l")))
+
+
 def compare(chk, v, tname, W, R, where, vn):
     """structural comparison of writer ops W and reader ops R.  Reader terms are rewritten to canonical
     $obj paths; writer sizes and bounds are evaluated in the heap the reader builds (so a field the
@@ -940,6 +973,7 @@ def check_mirror(chk, v, rule, only_size=False):
         if not W["ops"] or not R["ops"]:
             chk.broken("no ops extracted for %s/%s" % (tname, transport))
         problems, nt = compare(chk, v, tname, W, R, where, vn)
+        undecided_if_search_loops(tname, W, R, problems)
         key = "%s/%s: the reader consumes exactly what the writer produced" % (tname, transport)
         if problems:
             chk.refuted(rule, key, where=where, detail="; ".join(problems)[:900], variant=vn)
@@ -1082,6 +1116,7 @@ def run(chk):
             if not W["ops"] or not R["ops"]:
                 chk.broken("no ops extracted for %s/%s" % (tname, transport))
             problems, nt = compare(chk, v, tname, W, R, where, vn)
+            undecided_if_search_loops(tname, W, R, problems)
             key = "%s/%s writer and reader sequences mirror each other" % (tname, transport)
             nops = sum(1 for _ in flat_ops(W["ops"]))
             if problems:
